@@ -58,7 +58,9 @@ const relayBackendReply = `{"id":1,"jsonrpc":"2.0","result":"0x10d4f"}`
 func newRelayWorld(rt *rapid.T, kBoth int, bps int64, app0Stake int64, stopAt int64, lean bool, sessionAllowance int64) *relayWorld {
 	w := &relayWorld{spec: chain.DefaultSpec(), bps: bps, snc: int64(kBoth + 1), lean: lean}
 	s := &w.spec
-	fund := func(k crypto.PrivateKey) { s.Accounts = append(s.Accounts, chain.AccountSpec{Key: k, Balance: 1_000_000_000}) }
+	fund := func(k crypto.PrivateKey) {
+		s.Accounts = append(s.Accounts, chain.AccountSpec{Key: k, Balance: 1_000_000_000})
+	}
 	w.self = chain.Key("self")
 	fund(w.self)
 	s.Nodes = append(s.Nodes, chain.NodeSpec{Key: w.self, Stake: chain.StakeUnit, Chains: []string{"0001", "0003"}})
